@@ -182,6 +182,14 @@ def config_tree(draw, tier="quick"):
         if draw(st.integers(0, 3)) == 0:
             ctx["region"] = draw(region())
         ctxs.append(ctx)
+    if nctx == 3 and draw(st.integers(0, 1)) == 0:
+        # the same context (window and region) again, not adjacent in the list: [A, B, A']
+        for k in ("window", "region"):
+            ctxs[2].pop(k, None)
+            if k in ctxs[0]:
+                ctxs[2][k] = copy.deepcopy(ctxs[0][k])
+        if all(ctxs[1].get(k) == ctxs[0].get(k) for k in ("window", "region")):
+            ctxs[1]["window"] = {"starting": "2001-01-01T00:00:00", "ending": "2002-01-01T00:00:00"}
     if nctx == 1 and draw(st.booleans()):
         # make the bare layouts reachable often
         ctxs[0].pop("window", None)
